@@ -100,7 +100,16 @@ WideD == StructT([i \in 1..130 |-> Fld(WideName(i - 1), U8, "plain", FALSE, <<>>
 WideOpt == [WideD EXCEPT !.fields[129].t = OptT(U8), !.fields[129].sp = "Option", !.steps = <<Stp("MadeOptional", WideName(128), <<>>)>>]
 DeclsH == {WideD, EvoAddedLast(WideD), EvoRemovedGone(WideD), WideOpt}
 
-StructDecls == DeclsG \cup DeclsH \cup ShapesA \cup DeclsB \cup DeclsC \cup DeclsD \cup DeclsE \cup DeclsF
+\* Z: zero-width fields ((), PhantomData) in evolved records: a chunk that holds fields and is nevertheless
+\* empty (its size 0 is the "unknown" step code on the wire) must be read like any other chunk
+UNIT == K("unit")
+PHANTOM == [k |-> "phantom", e |-> U8]
+DeclsZ == {EvoAddedLast(Shape(<<U8, UNIT>>)), EvoAddedLast(Shape(<<U8, PHANTOM>>)), EvoAddedFirst(Shape(<<UNIT, U8>>)),
+           EvoAddedLast(Shape(<<UNIT, U8>>)),                  \* chunk 0 holds only the zero-width field
+           EvoRemovedGone(Shape(<<UNIT>>)), EvoRemovedGone(Shape(<<PHANTOM, UNIT>>)),
+           EvoAddedLast(Shape(<<UNIT, UNIT>>)), EvoAddedLast(Shape(<<STR, OptT(UNIT)>>)), Shape(<<UNIT, PHANTOM>>)}
+
+StructDecls == DeclsZ \cup DeclsG \cup DeclsH \cup ShapesA \cup DeclsB \cup DeclsC \cup DeclsD \cup DeclsE \cup DeclsF
                \cup {NamedT("RecList"), NamedT("RecTree"), NamedT("RecEnum")}
 
 -----------------------------------------------------------------------------
